@@ -26,7 +26,11 @@ RULE = ("for every fmt in i I q Q x, memory kind in {array-map variable, "
         "reference machine, from random and boundary initial values; a case "
         "= one schedule; conservation final = initial + sum(amounts) mod "
         "2^bits. Leg 2: 8 threads x BPF_PROG_TEST_RUN(repeat=N) of the loaded "
-        "program on the shared cell in the kernel. non-trivial = a schedule "
+        "program on the shared cell in the kernel. Leg 3: whole programs with "
+        "several counters and in-place additions of equal and different "
+        "constants in a row, inside and after conditional blocks, run in "
+        "the kernel for every combination of the conditions and by two "
+        "threads in parallel. non-trivial = a schedule "
         "in which the instances' accesses to the cell really interleave")
 ASSUMPTIONS = ["instruction granularity: an eBPF instruction (incl. the "
                "atomic add) is executed atomically with respect to others",
@@ -48,6 +52,9 @@ def plan(tier, seed):
     shards = [dict(seed=seed, shard=i, combos=combos[i::n], tier=tier)
               for i in range(n)]
     shards.append(dict(seed=seed, shard=99, stress=True, tier=tier))
+    for i in range(4):
+        shards.append(dict(seed=seed, shard=200 + i, context=True, tier=tier,
+                           n=60 if tier == "quick" else 1500))
     return shards
 
 
@@ -501,11 +508,149 @@ def stress(res, tier, rng):
                 ld.close()
 
 
+def gen_context(rng, depth=2):
+    """statements: ["add", counter, k] | ["sub", counter, k] |
+    ["if", flag, body, else-body or None]"""
+    out = []
+    for _ in range(rng.randint(1, 4)):
+        if depth and rng.random() < 0.4:
+            out.append(["if", rng.randrange(3), gen_context(rng, depth - 1),
+                        gen_context(rng, depth - 1)
+                        if rng.random() < 0.4 else None])
+        else:
+            out.append([rng.choice(["add", "add", "add", "sub"]),
+                        rng.randrange(4), rng.choice([1, 1, 1, 2, 3, 0x1234])])
+    return out
+
+
+def context_leg(res, rng, n):
+    """in-place additions inside whole programs: several counters, the same
+    and different constants in a row, inside and after conditional blocks
+    that some executions skip; every combination of the conditions is run in
+    the kernel, then two threads run the program in parallel; each counter
+    must end at initial + sum of the amounts of the statements executed"""
+    for _ in range(n):
+        fmts = [rng.choice(["I", "Q", "q", "i"]) for _ in range(4)]
+        stmts = gen_context(rng)
+        m = ArrayMap()
+        ns = {"license": "GPL", "m": m}
+        for j, f in enumerate(fmts):
+            ns[f"c{j}"] = m.globalVar(f)
+        for j in range(3):
+            ns[f"f{j}"] = m.globalVar("B")
+
+        def emit(e, st):
+            for s_ in st:
+                if s_[0] == "if":
+                    with getattr(e, f"f{s_[1]}") != 0 as Else:
+                        emit(e, s_[2])
+                    if s_[3] is not None:
+                        with Else:
+                            emit(e, s_[3])
+                else:
+                    cur = getattr(e, f"c{s_[1]}")
+                    if s_[0] == "add":
+                        cur += s_[2]
+                    else:
+                        cur -= s_[2]
+                    setattr(e, f"c{s_[1]}", cur)
+
+        def program(self):
+            emit(self, stmts)
+            self.r0 = 2
+            self.exit()
+        ns["program"] = program
+
+        def deltas(st, flags, acc):
+            for s_ in st:
+                if s_[0] == "if":
+                    if flags[s_[1]]:
+                        deltas(s_[2], flags, acc)
+                    elif s_[3] is not None:
+                        deltas(s_[3], flags, acc)
+                else:
+                    acc[s_[1]] += s_[2] if s_[0] == "add" else -s_[2]
+            return acc
+        desc = dict(context=True, fmts=fmts, stmts=stmts)
+        with kern.session() as sess:
+            e = type("VfCtx", (XDP,), ns)()
+            ld = prog.Loaded(e, sess)
+            try:
+                ld.load()
+            except OSError:
+                res.count("context_load_failed")
+                continue
+            try:
+                res.count("context_programs")
+                for flags in itertools.product((0, 1), repeat=3):
+                    init = [rng.getrandbits(8 * struct.calcsize(f)) >> 1
+                            for f in fmts]
+                    for j, f in enumerate(fmts):
+                        setattr(e, f"c{j}", init[j])
+                    for j in range(3):
+                        setattr(e, f"f{j}", flags[j])
+                    ld.run_k(bytes(64))
+                    d = deltas(stmts, flags, [0, 0, 0, 0])
+                    res.case(["context", stmts, flags],
+                             nontrivial=any(d))
+                    res.count("context_runs")
+                    for j, f in enumerate(fmts):
+                        bits = 8 * struct.calcsize(f)
+                        want = (init[j] + d[j]) & ((1 << bits) - 1)
+                        got = getattr(e, f"c{j}") & ((1 << bits) - 1)
+                        if got != want:
+                            res.violation(
+                                "wrong-amount:context",
+                                f"conditions {flags}: counter c{j} ({f}) "
+                                f"went from {init[j]} to {got}, the "
+                                f"statements executed add {d[j]}",
+                                case=dict(desc, flags=flags))
+                            break
+                    else:
+                        continue
+                    break
+                else:
+                    # two threads, conditions fixed
+                    flags = tuple(rng.randrange(2) for _ in range(3))
+                    for j in range(3):
+                        setattr(e, f"f{j}", flags[j])
+                    for j in range(4):
+                        setattr(e, f"c{j}", 0)
+                    N = 20000
+                    ths = [threading.Thread(
+                        target=lambda: kern.test_run(ld.fd, bytes(64),
+                                                     repeat=N))
+                        for _ in range(2)]
+                    for t in ths:
+                        t.start()
+                    for t in ths:
+                        t.join()
+                    d = deltas(stmts, flags, [0, 0, 0, 0])
+                    res.count("context_parallel_executions", 2 * N)
+                    for j, f in enumerate(fmts):
+                        bits = 8 * struct.calcsize(f)
+                        want = (2 * N * d[j]) & ((1 << bits) - 1)
+                        got = getattr(e, f"c{j}") & ((1 << bits) - 1)
+                        if got != want:
+                            res.violation(
+                                "lost-update:context",
+                                f"2x{N} parallel runs with conditions "
+                                f"{flags}: counter c{j} ({f}) is {got}, "
+                                f"expected {want}",
+                                case=dict(desc, flags=flags, parallel=True))
+                            break
+            finally:
+                ld.close()
+
+
 def run_shard(params):
     res = Result()
     rng = random.Random(params["seed"] * 100069 + params["shard"])
     if params.get("stress"):
         stress(res, params["tier"], rng)
+        return res
+    if params.get("context"):
+        context_leg(res, rng, params["n"])
         return res
     for fmt, kind, amount in params["combos"]:
         try:
@@ -527,6 +672,8 @@ def finalize(res, tier, seed):
     res.info["shared_combinations_without_schedules"] = missing
     if missing:
         res.inconc(f"no schedules explored for {missing}")
+    if not c.get("context_runs"):
+        res.inconc("whole-program leg did not run")
     if not c.get("kernel_parallel_executions"):
         res.inconc("kernel stress leg did not run")
 
